@@ -254,8 +254,9 @@ def _one_call(out, r, spec, pre, sim, reactor, spinner, stop_before, junk_model,
     for at, kind in spec["events"]:
         sim.schedule(t0 + at, kind)
     # a stop request that Twisted queued (callFromThread) during an earlier call whose main
-    # loop never got to process it is still pending in the reactor: it is delivered at the
-    # first iteration of the next call that spins the reactor
+    # loop never got to process it is still pending in the reactor.  It was a request to stop
+    # *that* call: nobody has asked for this one to be stopped (until audit round 5 the model took
+    # the carried-over request for a stop "at instant 0" of this call - DESIGN 9.9)
     carried_stop = bool(reactor.threadCallQueue)
     nfired0 = len(sim.fired)
     sig_before = {s: signal.getsignal(getattr(signal, s)) for s in ("SIGINT", "SIGTERM", "SIGCHLD")}
@@ -287,8 +288,11 @@ def _one_call(out, r, spec, pre, sim, reactor, spinner, stop_before, junk_model,
             times.append(at)
         inner_stop = spec["inner"] and (spec["inner"] != "sigint" or stop_int)
         if k in SYNC:
-            allowed = {own}
-            rec["rel_event"] = "sync"
+            # a stop requested from inside the function (reactor.stop() called, or a signal that Twisted turns
+            # into a queued reactor.stop) precedes the completion of the function's callback chain: "interrupted
+            # before the Deferred returned by 'function' has completed its callback chain" (run's docstring)
+            allowed = {"NoResultError"} if inner_stop else {own}
+            rec["rel_event"] = "sync-stop-inside" if inner_stop else "sync"
         else:
             T = spec["timeout"]
             d = spec["delay"] if k != "never" else None
@@ -299,7 +303,7 @@ def _one_call(out, r, spec, pre, sim, reactor, spinner, stop_before, junk_model,
             else:
                 base, tc = {own, "TimeoutError"}, T
                 rec["tie"] = True
-            if inner_stop or carried_stop:
+            if inner_stop:
                 times.append(0)
             if carried_stop:
                 rec["carried"] = True
